@@ -27,6 +27,8 @@ BARE_BYPASS = 0   # 1: console.print()/log() without arguments call Console.line
 START_GUARD = 1   # 0: as found, Progress.start() calls refresh() unprotected after installing hook / redirection / hidden cursor; 1: repaired, fix 4e4f7e5
 BLANK_FIX = 1     # 0: restore_cursor() goes up `height` rows: a transient display with an empty last frame leaves a blank line
 FLUSH_FIX = 1     # 0: stop() does not flush the FileProxy objects before its last refresh: text pending from print(..., end="") is written after the last frame
+GUARD_BASE = 1    # 0: the guard of Progress.start (fix 4e4f7e5) is `except Exception:` — KeyboardInterrupt / SystemExit / GeneratorExit get past it
+DISABLE_FIX = 1   # 0: Progress(disable=True).stop() still writes its line feed (and, transient, goes back up)
 RESET_SHAPE = 1   # 0: as found, stop() keeps _live_render._shape, so a later start() erases rows of finished output; 1: repaired, fix b4577f9
 
 
@@ -47,6 +49,7 @@ class Tracker:
         self.width = cfg.width # console width right now
         self.spin = "⠋"        # what the Status spinner shows right now (observed: opaque)
         self.spin_seq = None   # recorded spinner frames, one per render of the display
+        self.spec_disable = True   # a disabled Progress writes nothing at stop (the specification)
         self.renders = 0
         self.table = []        # Progress: rows of the table built by the last refresh
         self.next_id = 0
@@ -64,7 +67,9 @@ class Tracker:
     def frame(self, final=False):
         c = self.cfg
         if c.kind == "progress":
-            return list(self.table)
+            # one grid column, no_wrap, overflow "ellipsis": as wide as the widest row but not wider than the console
+            colw = min(max([term.cell_len(r) for r in self.table] + [0]), self.width)
+            return [r if term.cell_len(r) <= colw else term.crop_cells(r, colw - 1) + "…" for r in self.table]
         if c.kind == "status":
             ls = [((self.spin + " ") if i == 0 else "  ") + l for i, l in enumerate(self.status)]
         else:
@@ -150,7 +155,9 @@ class Tracker:
                 if self.cfg.transient and max(self.shown_h, 1 if BLANK_FIX else 0) + 1 > self.cfg.height:
                     self.transient_ok = False
                 self.phase = "stopped"
-                if self.cfg.transient:
+                if self.cfg.disable and self.spec_disable:
+                    self.after_stop = []      # a disabled display has no frame: nothing, transient or not
+                elif self.cfg.transient:
                     # nothing stays (`left_blank`: what today's code leaves for an empty last frame, used for wf/specm only)
                     self.after_stop = [""] if (self.shown_h == 0 and not self.blank_fix) else []
                 else:
@@ -244,6 +251,12 @@ def screen_ok(cfg, scr, tr):
 # ------------------------------------------------------------------------------------------------
 # running one history on the real objects
 # ------------------------------------------------------------------------------------------------
+def enc_cfg(cfg, spins="", faults=None, bare=None, reset=None):
+    """The configuration as the driver reads it, with the code-variant flags of this module."""
+    return cfg.enc(BARE_BYPASS if bare is None else bare, START_GUARD, RESET_SHAPE if reset is None else reset, BLANK_FIX, FLUSH_FIX, spins,
+                   fault_base=bool(faults is not None and faults.base), guard_base=GUARD_BASE, disable_fix=DISABLE_FIX)
+
+
 def prepare(cfg, ops):
     """Attach to every P op the lines a plain console writes for it."""
     out = []
@@ -271,7 +284,7 @@ def run_history(ctx, cfg, ops, faults=None, styled=False, evaluate=True, tag="")
     per_op = []
     written = []
     tr = Tracker(cfg)
-    scr = term.Screen(height=cfg.height, width_fn=term.wcwidth)
+    scr = term.Screen(height=cfg.height, width_fn=term.wcwidth, width=cfg.width)   # auto-wrap: what is wider than the terminal spills
     evaluating = evaluate and fenc == "-" and cfg.terminal and not cfg.dumb   # the screen property is about terminals
     fail = None
     try:
@@ -284,6 +297,8 @@ def run_history(ctx, cfg, ops, faults=None, styled=False, evaluate=True, tag="")
             scr.mark()
             clamped0 = scr.clamped
             scr.feed(toks)
+            if op[0] == "Z":
+                scr.width = op[1]
             if s.spins:
                 tr.spin = s.spins[-1]
             if evaluating and err == "ok":
@@ -291,12 +306,6 @@ def run_history(ctx, cfg, ops, faults=None, styled=False, evaluate=True, tag="")
                 if not tr.fits:
                     evaluating = False
                     ctx.note("eval_stop:frame-taller-than-screen(visible)")
-                    continue
-                if cfg.disable and cfg.transient and op[0] == "X" and tr.phase == "stopped":
-                    # Progress(disable=True) draws nothing, but stop() still writes its line feed, and with no frame ever
-                    # rendered there is no shape to go back up by: the property text says nothing about `disable`
-                    evaluating = False
-                    ctx.note("eval_stop:disabled-transient-progress-stop")
                     continue
                 what = None
                 if tr.phase == "stopped" and op[0] == "X" and cfg.transient and tr.after_stop is not None and max(tr.final_h, 1) + 1 > cfg.height:
@@ -338,6 +347,8 @@ def run_history(ctx, cfg, ops, faults=None, styled=False, evaluate=True, tag="")
                 finding = "transient-empty-frame-leaves-blank-line"
             elif not FLUSH_FIX and any(a[0] == "W" for a in prefix) and _passes_with(cfg, prefix, False, False, flush=True):
                 finding = "pending-partial-line-flushed-after-last-frame"
+            elif cfg.disable and not DISABLE_FIX and any(a[0] == "X" for a in prefix) and _passes_with(cfg, prefix, False, False, quiet_stop=True):
+                finding = "disabled-progress-stop-writes-newline"
             elif bare and _passes_with(cfg, prefix, True, False):
                 finding = "bare-print-bypasses-hook"
             elif restart and _passes_with(cfg, prefix, False, True):
@@ -345,7 +356,7 @@ def run_history(ctx, cfg, ops, faults=None, styled=False, evaluate=True, tag="")
             elif bare and restart and _passes_with(cfg, prefix, True, True):
                 finding = "bare-print-bypasses-hook+restart-stale-shape"
         ctx.check(fail is None, f"{cfg.kind} history", (cfg, [o[:3] for o in ops[: (fail[0] + 1) if fail else 0]]), fail[1] if fail else "", finding=finding)
-    ctx.case("live_run", [cfg.enc(BARE_BYPASS, START_GUARD, RESET_SHAPE, BLANK_FIX, FLUSH_FIX, spins), cfg.enc_init(), fenc, enc_ops(cfg, ops)], "|".join(per_op) + "#" + ctl,
+    ctx.case("live_run", [enc_cfg(cfg, spins, faults), cfg.enc_init(), fenc, enc_ops(cfg, ops)], "|".join(per_op) + "#" + ctl,
              shape=f"{cfg.kind}:{tag}", sample=f"{cfg!r} faults={fenc} ops={[o[:3] for o in ops]!r}")
     for op in ops:
         ctx.note("op:" + op[0] + (":" + op[2] if op[0] == "P" else ""))
@@ -392,11 +403,11 @@ def _file_check(ctx, cfg, ops, text):
     ctx.check(text == want_text and "\x1b" not in text, "Live on a file", (cfg, [o[:3] for o in ops]), f"file holds {text!r}, expected {want_text!r}")
 
 
-def _passes_with(cfg, ops, replace_bare, reset_shape, blank=False, flush=False):
+def _passes_with(cfg, ops, replace_bare, reset_shape, blank=False, flush=False, quiet_stop=False):
     ops2 = [("P", [""], "seg", [""]) if (replace_bare and op[0] in ("B", "BL")) else op for op in ops]
     s = L.Session(cfg)
     tr = Tracker(cfg, reset_shape=reset_shape or RESET_SHAPE)
-    scr = term.Screen(height=cfg.height, width_fn=term.wcwidth)
+    scr = term.Screen(height=cfg.height, width_fn=term.wcwidth, width=cfg.width)
     if blank:
         # counterfactual: restore_cursor() goes up at least one row
         from rich.control import Control
@@ -410,7 +421,17 @@ def _passes_with(cfg, ops, replace_bare, reset_shape, blank=False, flush=False):
                 for stream in (_sys.stdout, _sys.stderr):
                     if isinstance(stream, L.FileProxy):
                         stream.flush()
-            err, chars = s.apply_catch(op)
+            if quiet_stop and op[0] == "X" and cfg.disable:
+                # counterfactual: the stop() of a disabled Progress writes no line feed and erases nothing
+                s.console.line = lambda *a, **k: None
+                was_transient, s.obj.transient = s.obj.transient, False
+                err, chars = s.apply_catch(op)
+                del s.console.line
+                s.obj.transient = was_transient
+            else:
+                err, chars = s.apply_catch(op)
+            if op[0] == "Z":
+                scr.width = op[1]
             if reset_shape and op[0] == "X":
                 s.live_obj()._live_render._shape = None
                 if cfg.kind != "progress":
@@ -445,7 +466,7 @@ def spec_case(ctx, cfg, ops, spins=""):
             tr.op(op)
         except KeyError:
             return  # an operation raising KeyError: not wf, and the tracker has nothing to say
-    wf = ok and tr.fits and cfg.height >= 1 and not tr.pending_at_stop and cfg.terminal and not cfg.dumb and not cfg.disable
+    wf = ok and tr.fits and cfg.height >= 1 and cfg.terminal and not cfg.dumb and not cfg.disable
     if wf and tr.phase == "stopped" and cfg.transient:
         wf = max(tr.final_h, 1 if BLANK_FIX else 0) + 1 <= cfg.height
     if not wf:
@@ -463,31 +484,31 @@ def specm_case(cfg, ops, spins=""):
             tr.op(op)
         except KeyError:
             return None
-    wf = tr.fits and tr.transient_ok and cfg.height >= 1 and not tr.pending_at_stop and cfg.terminal and not cfg.dumb and not cfg.disable
+    wf = tr.fits and tr.transient_ok and cfg.height >= 1 and cfg.terminal and not cfg.dumb and not cfg.disable
     if not wf:
         return "0;0:"
     rows = tr.P + (tr.after_stop if tr.after_stop is not None else tr.F)
     return "1;" + enc_str_list(trim(rows))
 
 
-def with_case(ctx, cfg, ops, faults, raise_at):
+def with_case(ctx, cfg, ops, faults, raise_at, body_exc=None):
     ops = prepare(cfg, ops)
-    chars, raised, ctl, restored, exc, spins = L.run_with(cfg, ops, faults, raise_at)
+    chars, raised, ctl, restored, exc, spins = L.run_with(cfg, ops, faults, raise_at, body_exc or L.BodyError)
     fenc = faults.enc()
     scr = term.replay(chars, cfg.height)
     # direct evaluation of `cleanup_on_exception`
     finding = None
-    if not restored and cfg.kind == "progress" and ops and exc == "Boom":
+    if not restored and cfg.kind == "progress" and exc in ("Boom", "BoomKI", "BoomSE", "BoomGE"):
         lv_started = ctl.split(",")[0] == "1"
         # narrow: the display never finished __enter__ (still marked started, the body wrote nothing)
         if lv_started:
-            finding = "progress-start-refresh-raises-leaks"
+            finding = "progress-start-refresh-raises-leaks" if exc == "Boom" else "progress-start-guard-misses-baseexception"
     ctx.check(restored and scr.visible, f"with {cfg.kind}: cleanup", (cfg, [o[:3] for o in ops], fenc, raise_at),
               f"after the block: sys.stdout/sys.stderr restored and hook stack empty = {restored}, cursor visible = {scr.visible}, exception = {exc}", finding=finding)
     injected = raise_at is not None and raise_at <= len(ops)
     if injected and exc is None:
         ctx.check(False, f"with {cfg.kind}: propagation", (cfg, [o[:3] for o in ops], fenc, raise_at), "the exception raised by the body did not leave the block")
-    ctx.case("live_with", [cfg.enc(BARE_BYPASS, START_GUARD, RESET_SHAPE, BLANK_FIX, FLUSH_FIX, spins), cfg.enc_init(), fenc, enc_ops(cfg, ops), enc_opt(raise_at)],
+    ctx.case("live_with", [enc_cfg(cfg, spins, faults), cfg.enc_init(), fenc, enc_ops(cfg, ops), enc_opt(raise_at)],
              L.enc_tokens(term.tokenize(chars)) + "#" + enc_bool(raised) + "#" + ctl, shape=f"{cfg.kind}:{'fault' if fenc != '-' else 'body'}",
              sample=f"with {cfg!r}: ops={[o[:3] for o in ops]!r} faults={fenc} raise_at={raise_at}")
 
@@ -555,7 +576,9 @@ def rand_ops(rng, cfg, n, allow_bare, session=True, split_writes=True, resize=Tr
             ops.append(("S",)); started = True; pend = {False: 0, True: 0}
             continue
         if not session and r < 0.08:
-            ops.append(("S",)); started, stopped = True, False; pend = {False: 0, True: 0}
+            if not started:
+                pend = {False: 0, True: 0}      # new proxies (a start() of a running display changes nothing)
+            ops.append(("S",)); started, stopped = True, False
             continue
         if not session and r < 0.14:
             ops.append(("X",)); started = False; stopped = True; pend = {False: 0, True: 0}
@@ -594,8 +617,6 @@ def rand_ops(rng, cfg, n, allow_bare, session=True, split_writes=True, resize=Tr
                 w = rng.choice([16, 20, 30])
             else:
                 w = rng.choice([20, 24, 30])
-                if w < 30 and any(len(d) > 8 and v for d, v in tasks.values()):
-                    w = 30       # a long row must fit (Rich would wrap it: outside the model)
             if max(pend.values()) > 0:
                 w = max(w, 16)   # what is pending in a proxy plus the line that completes it must still fit
             ops.append(("Z", w))
@@ -607,7 +628,7 @@ def rand_ops(rng, cfg, n, allow_bare, session=True, split_writes=True, resize=Tr
         else:
             q = rng.random()
             short = ["ab", "cdef", "g", "task", "あい"]
-            wide_ok = curw >= 30 and not any(o[0] == "Z" for o in ops)
+            wide_ok = True      # rows wider than the console are truncated with an ellipsis (modelled)
             if q < 0.25 or not ids:
                 d = LONG if (wide_ok and rng.random() < 0.25) else rng.choice(short)
                 vis = rng.random() < 0.85
@@ -692,6 +713,12 @@ def corpus():
         # Progress.update / reset / track
         (L.Cfg("progress", False, 30, 7), [("A", "ab", True, 100), ("S",), ("E", 0, {"total": 5, "advance": 2, "completed": 7, "description": "cd"}, True),
                                             ("ER", 0, {"total": 50}), ("T0", 0, 2), ("T1", 0), ("T1", 0), ("T1", 0), ("X",)]),
+        # Progress(disable=True) around other output: nothing may appear, transient or not
+        (L.Cfg("progress", False, 30, 7, disable=True), [("P", ["a"], "seg"), ("A", "t0", True, 100), ("S",), ("X",), ("P", ["b"], "seg")]),
+        (L.Cfg("progress", True, 30, 7, disable=True), [("P", ["a"], "seg"), ("S",), ("P", ["m"], "seg"), ("X",), ("P", ["b"], "seg")]),
+        # rows wider than the console: truncated with an ellipsis (and a narrower console afterwards)
+        (L.Cfg("progress", False, 20, 7), [("A", LONG, True, 100), ("S",), ("A", "ab", True, 5), ("V", 0, 7), ("R",), ("Z", 12), ("R",), ("P", ["x"], "seg"), ("X",)]),
+        (L.Cfg("progress", False, 12, 7), [("A", "あいうえおかきく", True, 100), ("S",), ("R",), ("X",)]),
         # a transient display whose last frame fills the screen
         (L.Cfg("live", True, 12, 2, overflow="crop", init=["a", "b"]), [("S",), ("R",), ("X",)]),
         (L.Cfg("progress", True, 20, 2), [("A", "aa", True), ("A", "bb", True), ("S",), ("X",)]),
@@ -734,10 +761,12 @@ def run(ctx):
         "terminal = the VT100 subset of harness/term.py / Model/Term.lean (text, LF with ONLCR, CR, CUU n, EL 2, DECTCEM, SGR, OSC 8), no auto-wrap, window of `height` rows over an unbounded scroll-back; a double-width character occupies two cells",
         "consoles: terminal (force_terminal), dumb terminal (TERM=dumb), file (not a terminal); not Jupyter, not legacy Windows; auto_refresh=False (threads are C11's subject); the screen theorems are about terminals that are not dumb with the display not disabled (Cfg.plain)",
         "the user renderable is a parameter: the list of lines it yields (cell widths from rich/_cell_widths.py on the model side, from the Unicode East Asian Width property on the oracle side; zero-width characters are not generated); user output of print/log is the list of lines a console without a live display writes for the same call",
-        "Progress is driven with one column '{description} {completed}/{total}' and a frozen clock; rows wider than the console are outside the model (Rich truncates them with an ellipsis): the driver answers `unmodelled`",
+        "Progress is driven with one column '{description} {completed}/{total}' and a frozen clock; a row wider than the console is truncated by Text.truncate(overflow='ellipsis') (the Text model of C05, Lemmas/LiveText.lean)",
         "Status: what the spinner cell shows at each render is observed at Spinner.__rich_console__ and handed to the model (opaque function of the render count); the clock advances 50 ms per reading",
         "FileProxy: CPython reference counting is assumed (a proxy dropped by _disable_redirect_io is closed, hence flushed, at once — unless the exception in flight was raised inside its flush())",
-        "wf (Lean, decidable): Cfg.plain, height >= 1, no operation raises, stop only as the last operation (wfM: anywhere), every displayed frame fits the screen (automatic for crop/ellipsis), a transient display leaves one free row, nothing is pending in a FileProxy when stop is called",
+        "wf (Lean, decidable): Cfg.plain, height >= 1, no operation raises, stop only as the last operation (wfM: anywhere), every displayed frame fits the screen (automatic for crop/ellipsis; including the redraws of the two flushes of the repaired stop), a transient display leaves one free row",
+        "direct evaluation replays on a terminal WITH auto-wrap at the console width (a frame padded wider than the terminal spills into the next row); the Lean terminal has none, which is the same thing as long as nothing wider than the console is written",
+        "exceptions: Exception subclasses and the three BaseException-only classes (KeyboardInterrupt, SystemExit, GeneratorExit) are raised by the renderable / column and by the body",
     ]
     cfgs = configs(rng, ctx.quick)
     depth = 3 if ctx.quick else 4
@@ -798,7 +827,7 @@ def run(ctx):
         cfg = make_cfg(rng, kind, transient, ov, W, H)
         # (argument-less prints are mixed with restarts only once F19 is repaired: one cause per failing history)
         ops = rand_ops(rng, cfg, rng.randint(1, 40), BARE_BYPASS == 0 and rng.random() < 0.3, session=False)
-        fl = L.Faults(exact=rng.sample(range(30), rng.randint(0, 4)), from_=rng.choice([None, None, rng.randint(0, 30)])) if kind != "status" and rng.random() < 0.6 else None
+        fl = L.Faults(exact=rng.sample(range(30), rng.randint(0, 4)), from_=rng.choice([None, None, rng.randint(0, 30)]), exc=rng.choice([L.Boom, L.Boom, L.BoomKI, L.BoomSE, L.BoomGE])) if kind != "status" and rng.random() < 0.6 else None
         chars, pops, tr = run_history(ctx, cfg, ops, faults=fl, evaluate=fl is None, tag="arbitrary")
         if j % 4 == 0:
             outputs.append((cfg.height, chars))
@@ -834,13 +863,13 @@ def run(ctx):
         if r is None:
             continue
         wf, P, F = r
-        ctx.case("live_spec", [cfg.enc(0, START_GUARD, RESET_SHAPE, BLANK_FIX, FLUSH_FIX, spins), cfg.enc_init(), enc_ops(cfg, pops)], _SpecAnswer(wf, P, F, cfg.kind), shape=f"{cfg.kind}:wf{int(wf)}")
+        ctx.case("live_spec", [enc_cfg(cfg, spins, bare=0), cfg.enc_init(), enc_ops(cfg, pops)], _SpecAnswer(wf, P, F, cfg.kind), shape=f"{cfg.kind}:wf{int(wf)}")
     ctx.flush()
 
     for cfg, pops, spins in specm_batch + [(c, prepare(c, o), "") for c, o in corpus() if c.kind != "status"]:
         ans = specm_case(cfg, pops, spins)
         if ans is not None:
-            ctx.case("live_specm", [cfg.enc(0, START_GUARD, 1, BLANK_FIX, FLUSH_FIX, spins), cfg.enc_init(), enc_ops(cfg, pops)], ans, shape=f"{cfg.kind}:wf{ans[0]}:{'multi' if sum(o[0] == 'X' for o in pops) > 1 else 'single'}")
+            ctx.case("live_specm", [enc_cfg(cfg, spins, bare=0, reset=1), cfg.enc_init(), enc_ops(cfg, pops)], ans, shape=f"{cfg.kind}:wf{ans[0]}:{'multi' if sum(o[0] == 'X' for o in pops) > 1 else 'single'}")
     ctx.flush()
 
     # ---- 5. exceptions: every render-call index and every block position
@@ -857,14 +886,18 @@ def run(ctx):
         probe = L.Faults()
         L.run_with(cfg, prepare(cfg, body), probe, None)
         ncalls = probe.calls
+        # the classes of exception: an Exception, and the three that only derive from BaseException
+        body_exc = rng.choice([L.BodyError, L.BodyKI])
+        exc_cls = rng.choice([L.Boom, L.Boom, L.BoomKI, L.BoomSE, L.BoomGE])
         for pos in range(len(body) + 2):
-            with_case(ctx, cfg, body, L.Faults(), pos)
+            with_case(ctx, cfg, body, L.Faults(), pos, body_exc)
         with_case(ctx, cfg, body, L.Faults(), None)
         if kind != "status":
             for k in range(ncalls + 1):
-                with_case(ctx, cfg, body, L.Faults(exact=[k]), None)
+                with_case(ctx, cfg, body, L.Faults(exact=[k], exc=exc_cls), None)
                 if k % 2 == 0:
-                    with_case(ctx, cfg, body, L.Faults(from_=k), None)
+                    with_case(ctx, cfg, body, L.Faults(from_=k, exc=exc_cls), None)
+        ctx.note(f"with:exc:{exc_cls.__name__}/{body_exc.__name__}")
         ctx.note(f"with:{kind}:calls{min(ncalls, 10)}")
     # Progress with tasks added before the block: the refresh inside start() is a render call too
     for j in range(20 if ctx.quick else 300):
@@ -897,8 +930,9 @@ def _progress_prestart(ctx, cfg, rng):
     ntasks = rng.randint(1, 3)
     body = prepare(cfg, rand_ops(rng, cfg, rng.randint(0, 5), False, session=False, split_writes=False))
     pre = [("A", f"t{i}", True) for i in range(ntasks)]
+    exc_cls = rng.choice([L.Boom, L.Boom, L.BoomKI, L.BoomSE, L.BoomGE])
     for k in [None] + list(range(0, 2 * ntasks + 2)):
-        faults = L.Faults(exact=[] if k is None else [k])
+        faults = L.Faults(exact=[] if k is None else [k], exc=exc_cls)
         s = L.Session(cfg, faults)
         try:
             exc = None
@@ -908,7 +942,7 @@ def _progress_prestart(ctx, cfg, rng):
                 with s.obj:
                     for op in body:
                         s.apply(op)
-            except (L.Boom, KeyError) as e:
+            except L.BOOMS + (KeyError,) as e:
                 exc = e
             restored = s.restored()
             chars = s.take()
@@ -917,11 +951,11 @@ def _progress_prestart(ctx, cfg, rng):
             s.close()
         scr = term.replay(chars, cfg.height)
         finding = None
-        if not restored and isinstance(exc, L.Boom) and ctl.split(",")[0] == "1":
-            finding = "progress-start-refresh-raises-leaks"
+        if not restored and isinstance(exc, L.BOOMS) and ctl.split(",")[0] == "1":
+            finding = "progress-start-refresh-raises-leaks" if isinstance(exc, L.Boom) else "progress-start-guard-misses-baseexception"
         ctx.check(restored and scr.visible, "with progress (tasks added before the block): cleanup", (cfg, pre, [o[:3] for o in body], faults.enc()),
                   f"after the block: io/hook restored = {restored}, cursor visible = {scr.visible}, exception = {type(exc).__name__ if exc else None}", finding=finding)
-        ctx.case("live_pre_with", [cfg.enc(BARE_BYPASS, START_GUARD, RESET_SHAPE, BLANK_FIX, FLUSH_FIX), cfg.enc_init(), faults.enc(), enc_ops(cfg, pre), enc_ops(cfg, body), "-"],
+        ctx.case("live_pre_with", [enc_cfg(cfg, "", faults), cfg.enc_init(), faults.enc(), enc_ops(cfg, pre), enc_ops(cfg, body), "-"],
                  L.enc_tokens(term.tokenize(chars)) + "#" + enc_bool(exc is not None) + "#" + ctl, shape="leak" if not restored else "clean",
                  sample=f"{cfg!r}: {pre!r}; with progress: {[o[:3] for o in body]!r} faults={faults.enc()}")
         ctx.note("prestart:" + ("leak" if not restored else "clean"))
@@ -946,7 +980,8 @@ MANIFEST = {
     "fault predicate over render-call indices, every body, every raise position: hook depth, sys.stdout/sys.stderr proxies and restore slots, "
     "started flag and cursor visibility are restored and a body exception leaves the block), run_balanced. The theorems hold for the repaired code "
     "variants; machine-checked witnesses (decide) show the code as found breaks them: old_bare_print_leaves_remnant (F19), old_progress_start_leaks, "
-    "old_restart_erases_printed_lines, old_transient_empty_frame_leaves_blank_line, old_pending_text_flushed_after_last_frame, and the known "
+    "old_restart_erases_printed_lines, old_transient_empty_frame_leaves_blank_line, old_pending_text_flushed_after_last_frame, "
+    "old_start_guard_misses_base_exception, old_disabled_progress_writes_newline, and the known "
     "finding transient_frame_filling_screen_leaves_remnant. Tie: per-operation comparison of the characters real Live/Progress/Status objects "
     "write (tokenised by the independent harness/term.py) with the model's terminal operations plus the control state (started, hook depth, proxy "
     "depths, restore slots, shape, task index, overflow mode, pending proxy text), ~10k histories per quick run / ~230k thorough: bounded-exhaustive "
@@ -957,11 +992,11 @@ MANIFEST = {
     "every operation (plus, for a Live on a file: the file holds the printed lines and, once, the last frame).",
     "note": "wf excludes (explicitly, decidably): visible-overflow frames taller than the screen (documented by rich as not clearable; Progress has "
     "no overflow handling at all), transient displays whose last frame leaves no free row (known finding, no small repair), text still pending in "
-    "a FileProxy when stop is called (the repaired stop flushes it first: modelled, tied and witnessed, not covered by live_screen), prints that do "
+    "a FileProxy when stop is called ONLY for the as-found stop — with the repaired stop (flushFix) live_screen and live_screen_sessions have no such hypothesis: pending text is printed above the last frame; prints that do "
     "not end in a new line (console.print(end='') shares its row with the first frame line and is erased with it: by design of the hook, see "
     "Props/C10.lean), consoles that are not plain terminals (files, dumb terminals, Progress(disable=True): modelled and tied, outside the screen "
     "property). Parameters, not modelled: what the user renderable yields, user output of print/log (the lines a console without live display "
-    "writes), the Progress column (one text column, frozen clock; rows wider than the console are `unmodelled`), the Status spinner frames "
+    "writes), the Progress column (one text column, frozen clock; over-wide rows truncated as Text.truncate does), the Status spinner frames "
     "(observed). Assumed: CPython reference counting for FileProxy objects; auto_refresh=False (threads are C11); no auto-wrap at the right "
     "margin, LF acts as CR LF (tty ONLCR); not Jupyter, not legacy Windows. Trusted: Lean kernel; axioms propext/Classical.choice/Quot.sound; "
     "harness/term.py, lib_live.py and this module.",
